@@ -15,7 +15,7 @@ LEVEL_TEXT = ('seeded exploration of interleaved build/write/mutate/re-write his
               'bytewise with the projection of the history onto its file, run in a fresh fork')
 LEVEL_NOTE = ('trusted: the projection builder (validated by the identity history in selftest oracle) and fork-of-zygote == fresh '
               'process (selftest fresh); both sides run the same code; <= 3 clients, <= 4 writes per history')
-TIERS = {'quick': {'cases': 600, 'wall': 45}, 'thorough': {'cases': 120000, 'wall': 840}}
+TIERS = {'quick': {'cases': 1200, 'wall': 45}, 'thorough': {'cases': 120000, 'wall': 840}}
 RULE = ('case = seeded interleaving of client programs (build, write, mutate or extend, write again); non-trivial = the compared '
         'write was preceded by at least one op of another file or an earlier write of its own file; distinct = case digest')
 
